@@ -97,7 +97,17 @@ def main(argv=None):
         doc = json.load(open(a.replay, encoding='utf-8'))
         if hasattr(mod, 'worker_init'):
             mod.worker_init(tier)
-        viols = mod.replay(doc['case'])
+        if isinstance(doc['case'], dict) and 'harness_unit' in doc['case']:
+            try:
+                mod.run_unit(doc['case']['harness_unit'], tier)
+                viols = []
+            except BaseException as ex:  # noqa
+                site = core.library_site(ex)
+                if site is None:
+                    raise
+                viols = [{'cls': 'library_exception_outside_oracle', 'got': f"{type(ex).__name__}: {ex}", 'note': site}]
+        else:
+            viols = mod.replay(doc['case'])
         if viols:
             for v in viols:
                 print(f"  {v['cls']}: got={v.get('got')!r} exp={v.get('exp')!r} {v.get('note','')}")
